@@ -234,6 +234,11 @@ static ares_status_t parse_nameserver_uri(ares_buf_t     *buf,
   sconfig->tcp_port = sconfig->udp_port;
   port              = ares_uri_get_query_key(uri, "tcpport");
   if (port != NULL) {
+    /* A port is a decimal number of at most 5 digits that fits 16 bits */
+    if (!ares_str_isnum(port) || ares_strlen(port) > 5 || atoi(port) > 65535) {
+      status = ARES_EBADSTR;
+      goto done;
+    }
     sconfig->tcp_port = (unsigned short)atoi(port);
   }
 
